@@ -59,6 +59,20 @@ pub fn selftest_quick() -> Result<(), String> {
             return Err(format!("reference perft({}) of {} = {}, published {}", d, fen, got, n));
         }
     }
+    // every other literal used as a root by a check
+    let literals: Vec<&str> = hist::PERPETUAL.iter().copied().chain(hist::MATE_ROOTS.iter().copied()).chain(c14::POSITIONS.iter().filter_map(|p| p.strip_prefix("fen "))).collect();
+    for f in literals {
+        let p = Pos::from_fen(f).map_err(|e| format!("literal unreadable: {} ({})", f, e))?;
+        if !p.sane() {
+            return Err(format!("literal not sane: {}", f));
+        }
+    }
+    for f in hist::MATE_ROOTS {
+        let p = Pos::from_fen(f)?;
+        if !p.legal().into_iter().any(|m| p.make(m).legal().is_empty()) {
+            return Err(format!("mate root without a mating move: {}", f));
+        }
+    }
     let z = Zob::repo();
     for (fen, hash) in golden::GOLDEN {
         let p = Pos::from_fen(fen)?;
